@@ -206,6 +206,45 @@ func runC16(r *Run) {
 			}
 		}
 		r.atLeast("session store error branches", n, 1)
+		// a stored token is returned only if it is unexpired, its key equals the presented key and the raw values match
+		retRaw := func(in ssa.Instruction) bool {
+			ret, ok := in.(*ssa.Return)
+			return ok && !constIsNil(asConst(retOperand(ret, 0)))
+		}
+		gates := map[string][]edge{}
+		for _, br := range branchesIn(f) {
+			// key != token.Key
+			if br.Info.Other != nil && (br.Info.Op == token.NEQ || br.Info.Op == token.EQL) {
+				a, b := br.Info.Root, br.Info.Other
+				isKeyParam := func(v ssa.Value) bool { p, ok := v.(*ssa.Parameter); return ok && p.Name() == "key" }
+				isTokKey := func(v ssa.Value) bool { fv := fieldOfValue(stripValue(v)); return fv != nil && fv.Name() == "Key" }
+				if (isKeyParam(a) && isTokKey(b)) || (isKeyParam(b) && isTokKey(a)) {
+					rel := br.Info.Op == token.EQL
+					gates["key-equal"] = append(gates["key-equal"], edge{br.If.Block(), br.slotWhenRel(rel)})
+				}
+			}
+			if c, _ := producerCall(br.Info.Root); c != nil {
+				switch {
+				case strings.HasSuffix(calleeName(&c.Call), "csrf.compareTokens"):
+					if s, ok := br.truthSlot(true); ok {
+						gates["raw-equal"] = append(gates["raw-equal"], edge{br.If.Block(), s})
+					}
+				case calleeName(&c.Call) == "(time.Time).Before":
+					if s, ok := br.truthSlot(false); ok {
+						gates["not-expired"] = append(gates["not-expired"], edge{br.If.Block(), s})
+					}
+				}
+			}
+		}
+		for _, gname := range []string{"key-equal", "raw-equal", "not-expired"} {
+			cut := map[edge]bool{}
+			for _, e := range gates[gname] {
+				cut[e] = true
+			}
+			_, hit := reach(entryOf(f), retRaw, cut, nil)
+			r.check(len(cut) > 0 && hit == nil, "sessionManager.getRaw:"+gname, r.fpos(f), "a token is confirmed only past the `"+gname+"` edge",
+				"with the session backend a token can be confirmed without the `"+gname+"` condition holding: a forged, replayed or foreign token passes while the session holds any live token")
+		}
 		sm := r.Fn(csrfPkg, "(*storageManager).getRaw")
 		okRet := true
 		for _, in := range instrsWhere(sm, isReturn) {
